@@ -83,4 +83,11 @@ TEXT = {
         "design_ref": "DESIGN.md section 2, C02",
         "level_note": "Trusted base: net.Pipe read/write semantics, hlsim reference client, normalisation (ids of server-initiated transactions, reference numbers, chat ids, file dates masked).",
     },
+    "C18": {
+        "engine": "E1 bubble world",
+        "technique": "model-based stateful property testing (rapid state machine) through the protocol against a reference news tree, with strict reference decoding of list encodings and reload of the persisted file",
+        "level_text": "Generated histories of create / post / reply / delete / reload; after every step the complete observable news tree (article lists, each article, category listings at every path) is compared with the model, so lost or altered articles, wrong links, unparseable list encodings and fields lost on reload are all visible.",
+        "design_ref": "DESIGN.md section 2, C18",
+        "level_note": "Trusted base: hlref news decoders, hlsim, rapid. Histories ~30 steps, depth <= 3, bodies <= 60000 bytes.",
+    },
 }
